@@ -2,6 +2,7 @@ import SCModel.Generated.Tables
 import SCModel.Model.Slicing
 import SCModel.Model.World
 import SCModel.Model.Forms
+import Mathlib.Data.Int.Order.Basic
 /-!
 # SCModel.Props.Tie — the tables regenerated from the source equal the model's tables
 
@@ -95,5 +96,14 @@ theorem tie_maskify : ∀ t,
     Generated.maskify false t = (maskOp (some 0) (conc t), maskOp (some 0) (conc t)) ∧
     Generated.maskify true t = (whereOp (some 0) (conc t), whereOp (some 0) (conc t)) := by
   intro t; cases t <;> decide +kernel
+
+/-- C02: the scalar path of `layer` (in-place update of the step-change series, zero entries dropped, initial
+value bumped for a missing start, `start == end` early return) run on all 1216 small receiver × call
+combinations produces exactly what the model's `layerScalarDeltas` (`Model/Forms.lean`) produces -/
+theorem tie_layerScalar :
+    ∀ chunk ∈ Generated.layerScalarCases, ∀ c ∈ chunk,
+      let d := layerScalarDeltas (⟨c.1.1, c.1.2.1, .left⟩ : DStairs Int) c.1.2.2.1 c.1.2.2.2.1 c.1.2.2.2.2
+      (d.init, d.deltas) = c.2 := by
+  decide +kernel
 
 end SC.Props.Tie
